@@ -48,8 +48,18 @@ def declare(ctx):
         ctx.rule(r, t)
 
 
+_DEFS = {}
+
+
+def _optxt(e):
+    """operand text with const / reference locals replaced by their initialisers (a hoisted `parent.forkId - 1` is the same subscript)"""
+    from .common import _subst_txt
+    return _subst_txt(_FN.get("F"), e, _DEFS.get("defs", {}))
+
+
 def norm_operand(t):
     t = t.replace("this.", "")
+    t = re.sub(r"\[\((.*)\)\]$", r"[\1]", t)
     m = re.match(r"^(compoActive|compoRequested|compoResumable)\[parent\.forkId-1\]$", t)
     if m:
         return {"compoActive": "ACT", "compoRequested": "REQ", "compoResumable": "RES"}[m.group(1)]
@@ -69,7 +79,7 @@ def atoms_of(e):
             return None
         return a | b
     if e.get("k") == "bin" and e["op"] in ("==", "!="):
-        l, r = norm_operand(_expr_txt(e["lhs"])), norm_operand(_expr_txt(e["rhs"]))
+        l, r = norm_operand(_optxt(e["lhs"])), norm_operand(_optxt(e["rhs"]))
         l, r = sorted((l, r))
         return {(e["op"], l, r)}
     return None
@@ -78,10 +88,17 @@ def atoms_of(e):
 def query_atoms(F, b):
     """the registry-dependent return of a query: set of atoms, or ('val', operand)"""
     out = []
+    from .common import local_defs
+    defs = local_defs(b["body"])
+    # only scalar temporaries are looked through: `parent` (a Parent record) is the walk's cursor and part of the canonical operand spelling
+    scalar = set(v["n"] for x in walk(b["body"]) if x.get("k") == "decl" for v in x["vars"] if v.get("tid") is None and v.get("n"))
+    _DEFS["defs"] = defs = {n: e for n, e in defs.items() if n in scalar}
     for x in walk(b["body"]):
         if x.get("k") == "ret" and x.get("e") is not None:
             e = strip(x["e"])
-            t = _expr_txt(e)
+            while isinstance(e, dict) and e.get("k") == "var" and e.get("d") == "local" and e.get("n") in defs:
+                e = strip(defs[e["n"]])          # `const bool r = ...; return r;`
+            t = _optxt(e)
             if not re.search(r"compo(Active|Requested|Resumable)\[", t):
                 continue
             a = atoms_of(e)
